@@ -196,40 +196,9 @@ def _select_method(P):
 
 def rule_hidden(P) -> RuleResult:
     res = RuleResult('R-HIDDEN')
-    m = P.module(CO)
-    sites = []
-    for fi in m.functions.values():
-        for n in ast.walk(fi.node):
-            if isinstance(n, ast.Call) and unparse(n.func) == 'EvalTarget':
-                sites.append((fi, n))
-    if len(sites) < 4:
-        raise AnalysisError(f'only {len(sites)} EvalTarget construction sites found')
-    named = 0
-    for fi, n in sites:
-        if len(n.args) != 3:
-            raise AnalysisError(f'{fi.fq}: EvalTarget call shape not understood')
-        name = n.args[1]
-        construct = f'{fi.fq}:EvalTarget'
-        if fi.name == '_compile_targets':
-            named += 1
-            # name comes from get_target_name(target)
-            nm = name
-            if isinstance(nm, ast.Name):
-                defs = [x for x in ast.walk(fi.node) if isinstance(x, ast.Assign) and unparse(x.targets[0]) == nm.id]
-                nm = defs[0].value if len(defs) == 1 else nm
-            tgt = P.lookup(fi.module.dotted(nm.func) or '') if isinstance(nm, ast.Call) else None
-            if not (isinstance(tgt, FuncInfo) and tgt.name == 'get_target_name'):
-                res.fail(construct, 'hidden:name-source', 'the name of a SELECT target must come from get_target_name()', loc(fi, n))
-            else:
-                res.ok({'site': fi.fq, 'name': 'get_target_name(target)'})
-        else:
-            if not is_none(name):
-                res.fail(construct, 'hidden:named', f'a helper target created in {fi.name} is given the name `{unparse(name)}`: '
-                         f'it would show up in the description and in the rows', loc(fi, n))
-            else:
-                res.ok({'site': fi.fq, 'name': None})
-    if named != 1:
-        raise AnalysisError('EvalTarget site in _compile_targets not found')
+    # SELECT targets are named by get_target_name(); helper targets (below) have no name
+    from .sx_compiler import select_target_cases
+    select_target_cases(P, res)
     # helper targets are appended after the visible ones: decided on the paths of _compile_select
     from .sx_compiler import targets_flow_cases
     targets_flow_cases(P, res, 'hidden')
@@ -978,8 +947,8 @@ def rule_foldsafe(P) -> RuleResult:
             if isinstance(n, ast.Call) and unparse(n.func) == 'EvalConstant' and n.args and isinstance(n.args[0], ast.Call) \
                     and [unparse(a) for a in n.args[0].args] == ['None']:
                 sites.append((fi, n))
-    if len(sites) < 3:
-        raise AnalysisError(f'only {len(sites)} constant folding sites found')
+    if not sites:
+        raise AnalysisError('no constant folding site of the form EvalConstant(node(None)) found')
     for fi, n in sites:
         kind = 'function' if fi.name == '_function' else 'unary' if fi.name == '_unaryop' else 'binary'
         examples = []
